@@ -10,6 +10,7 @@ import shutil
 import tempfile
 
 from hypothesis import strategies as st
+from pydantic import BaseModel, Field
 
 from .. import boot
 from ..runner import CaseResult, Prop
@@ -19,6 +20,27 @@ INIT_VALUES = {"a": 1, "cnt": 5, "log": ["i"], "n": {"x": 7}}
 STATE_KEYS = ["a", "cnt", "log", "n"]
 PUT_KEYS = ["a", "b"]
 BACKENDS = ["memory", "sqlite"]
+
+# typed state with inheritance (model == "typed"): same key space, every key has a default that equals what the
+# DictState operations assume for an absent key (0 / [] / {}), so the two models share one operation semantics
+TYPED_DEFAULTS = {"a": 0, "b": 0, "cnt": 0, "log": [], "n": {}}
+BASE_FIELDS = ("a", "log")  # fields of the parent type; b, cnt, n exist on the child type only
+CHILD_ONLY = ("b", "cnt", "n")
+
+
+class C20Base(BaseModel):
+    """Parent state type (what an inherited base-workflow step passes to set_state)."""
+
+    a: int = 0
+    log: list[str] = Field(default_factory=list)
+
+
+class C20Child(C20Base):
+    """State type of the store; module-level so that JsonSerializer can re-import it by qualified name."""
+
+    b: int = 0
+    cnt: int = 0
+    n: dict[str, int] = Field(default_factory=dict)
 
 
 def canon(obj) -> str:
@@ -48,6 +70,22 @@ def whole_for(keys, ti, oi) -> dict:
     return out
 
 
+def parent_for(ti, oi) -> dict:
+    """Field values of set_state(C20Base(...)): every parent field is given explicitly (and names its writer)."""
+    return {"a": uniq(ti, oi), "log": [f"p{ti}.{oi}"]}
+
+
+def typed_full(values: dict) -> dict:
+    out = copy.deepcopy(TYPED_DEFAULTS)
+    out.update(values)
+    return out
+
+
+def child_only_writer(op) -> bool:
+    """Does this edit_state block write a field that exists only on the child type?"""
+    return any((m[0] in ("incr", "put") and m[1] in CHILD_ONLY) for m in op.get("muts", []))
+
+
 # ------------------------------------------------------------------ reference model (plain dicts)
 
 
@@ -68,7 +106,8 @@ def apply_block(state: dict, muts, ti, oi) -> dict:
     return new
 
 
-def apply_op(state: dict, op, ti, oi) -> dict:
+def apply_op(state: dict, op, ti, oi, typed: bool = False) -> dict:
+    """One operation applied atomically.  typed: the state always carries all five keys (model defaults)."""
     k = op["k"]
     if k == "set":
         new = dict(state)
@@ -81,11 +120,17 @@ def apply_op(state: dict, op, ti, oi) -> dict:
             new[segs[0]] = inner
         return new
     if k == "set_state":
-        return whole_for(op.get("keys", []), ti, oi)
+        whole = whole_for(op.get("keys", []), ti, oi)
+        return typed_full(whole) if typed else whole
+    if k == "set_state_parent":
+        # parent-type form: the parent's fields are merged onto the current state, child-only fields are kept
+        new = dict(state)
+        new.update(parent_for(ti, oi))
+        return new
     return apply_block(state, op.get("muts", []), ti, oi)
 
 
-def serial_results(init: dict, tasks) -> set[str]:
+def serial_results(init: dict, tasks, typed: bool = False) -> set[str]:
     """Final states of every interleaving that respects per-task order (forward DP over the position lattice)."""
     lens = tuple(len(t) for t in tasks)
     start = tuple(0 for _ in tasks)
@@ -99,7 +144,7 @@ def serial_results(init: dict, tasks) -> set[str]:
                     if pos[ti] < lens[ti]:
                         oi = pos[ti]
                         npos = pos[:ti] + (oi + 1,) + pos[ti + 1 :]
-                        nxt.setdefault(npos, set()).add(canon(apply_op(state, tasks[ti][oi], ti, oi)))
+                        nxt.setdefault(npos, set()).add(canon(apply_op(state, tasks[ti][oi], ti, oi, typed)))
         layer = nxt
     return layer.get(lens, {canon(init)})
 
@@ -107,22 +152,30 @@ def serial_results(init: dict, tasks) -> set[str]:
 class C20(Prop):
     id = "C20"
     rule = (
-        "case = 2-4 concurrent tasks, each 1-3 operations on one state store of one run (DictState): set(path, v) with path in cnt,log,a,b,n.x,n.y; "
+        "case = 2-4 concurrent tasks, each 1-3 operations on one state store of one run: set(path, v) with path in cnt,log,a,b,n.x,n.y; "
         "set_state(whole new state); edit_state{read early or late; 0-2 suspension points, each 1-4 x asyncio.sleep(0) or a harness gate; "
         "write f(read): increments, appends, puts}; plus a generated schedule (0-3 loop yields before every operation, the order in which the "
-        "harness opens the gates and how long it lets the loop run in between) and a generated initial state (row absent / some keys). Every "
+        "harness opens the gates and how long it lets the loop run in between) and a generated initial state (row absent / some keys). The state "
+        "model is generated too: DictState, or a typed pydantic state with inheritance (store state type C20Child(C20Base): parent fields a, log; "
+        "child-only fields b, cnt, n; all with defaults) -- typed cases additionally issue the documented parent-type form "
+        "set_state(C20Base(a=.., log=..)), whose serial meaning is 'parent fields replaced, child-only fields kept'. Every "
         "written value names its writer and increments/appends are order-revealing. The same case runs on one InMemoryStateStore object and on "
         "one SqliteStateStore object obtained from SqliteWorkflowStore.create_state_store(run_id) (the server creates and caches exactly one "
         "store object per run, so per-task store objects are not generated). Oracle: the observed final state (read back through get_state) "
         "must equal the final state of at least one serial execution of the same operations that respects each task's own order, every "
         "edit_state block counting as one atomic operation (all interleavings enumerated by a forward DP over task positions). Non-trivial = "
         "on at least one backend, while an edit_state block was suspended between its read and its write, another task invoked "
-        "set/set_state/edit_state on the same store (whether that call may complete inside the window is exactly what the store decides)."
+        "set/set_state/edit_state on the same store (whether that call may complete inside the window is exactly what the store decides). "
+        "Class labels parent_set_state_behind_open_block / ..._behind_child_field_writer count the typed cases where a parent-type set_state was "
+        "invoked while another task's block (one that writes a child-only field) held the store lock."
     )
     assumptions = [
         "single event loop; InMemoryStateStore and SqliteStateStore are thread-free (the sqlite3 calls run synchronously on the loop, no "
         "to_thread/run_in_executor), so a schedule is a pure function of the case on the FIFO asyncio ready queue",
-        "DictState only (no typed state models, no parent-type merge); values are ints, lists of str and one nested dict, all JSON round-trip safe",
+        "two state models: DictState, and one fixed typed pair C20Child(C20Base) defined in this module (JsonSerializer re-imports it by qualified "
+        "name); typed defaults (0, [], {}) equal what the operations assume for an absent DictState key, so both models share one reference "
+        "semantics; a parent-type set_state always gives every parent field explicitly, so the oracle does not depend on how unset parent "
+        "fields are merged; values are ints, lists of str and one nested dict, all JSON round-trip safe",
         "one store object per run per backend, as _ServerInternalRunAdapter.get_state_store caches it; SQLite store in default (multi-connection) "
         "mode on a per-case temp directory (on /dev/shm when available, only to avoid fsync cost)",
         "only the final state is judged (the property's observe_at); cross-task real-time order is not imposed on the serial witness",
@@ -159,7 +212,8 @@ class C20(Prop):
         sched = st.lists(st.tuples(st.integers(0, 3), st.integers(0, 5)).map(list), max_size=6)
         init = st.one_of(st.none(), st.lists(st.sampled_from(STATE_KEYS), unique=True, max_size=4).map(sorted))
 
-        def for_hot(hot):
+        def for_hot(hm):
+            hot, model = hm
             # every case has one "hot" key that most writers touch, so that read-modify-write blocks and plain
             # writes really collide (a lost update is only visible on a key both sides use)
             hot_mut = st.just(["append"] if hot == "log" else ["incr", hot])
@@ -177,11 +231,19 @@ class C20(Prop):
             set_state = st.fixed_dictionaries(
                 {"k": st.just("set_state"), "keys": st.lists(st.sampled_from(STATE_KEYS), unique=True, max_size=4).map(sorted), "pre": pre}
             )
-            op = st.one_of(edit, edit, edit, set_, set_, set_state)
+            if model == "typed":
+                # parent-type form of set_state (merge path): only meaningful on a typed store with an inherited state type
+                pset = st.fixed_dictionaries({"k": st.just("set_state_parent"), "pre": pre})
+                op = st.one_of(edit, edit, edit, set_, set_, set_state, pset, pset)
+            else:
+                op = st.one_of(edit, edit, edit, set_, set_, set_state)
             tasks = st.lists(st.lists(op, min_size=1, max_size=3), min_size=2, max_size=4)
-            return st.fixed_dictionaries({"init": init, "tasks": tasks, "sched": sched})
+            return st.fixed_dictionaries({"model": st.just(model), "init": init, "tasks": tasks, "sched": sched})
 
-        return st.sampled_from(["cnt", "a", "log"]).flatmap(for_hot)
+        # typed cases favour the child-only hot key (a parent-type set_state must keep it)
+        dict_cases = st.tuples(st.sampled_from(["cnt", "a", "log"]), st.just("dict"))
+        typed_cases = st.tuples(st.sampled_from(["cnt", "cnt", "a", "log"]), st.just("typed"))
+        return st.one_of(dict_cases, typed_cases).flatmap(for_hot)
 
     # ------------------------------------------------------------------ one backend
 
@@ -189,27 +251,45 @@ class C20(Prop):
         """Runs the case on one backend; returns (final_state | None, stats)."""
         DictState = self.DictState
         tasks = case["tasks"]
+        typed = case.get("model", "dict") == "typed"
+
+        def make_state(values: dict):
+            return C20Child(**copy.deepcopy(values)) if typed else DictState(**copy.deepcopy(values))
+
+        def read_all(s) -> dict:
+            return copy.deepcopy(s.model_dump() if typed else dict(s.items()))
+
+        def put(s, key, value):
+            if typed:
+                setattr(s, key, value)
+            else:
+                s[key] = value
+
         stats = {
             "contention": False,  # a write op was invoked while another task's block was open
             "intruders": set(),  # op kinds that COMPLETED while another task's block was open
             "two_blocks_open": False,
             "raised": False,
+            "pset_behind_block": False,  # parent-type set_state invoked while another task's block was open
+            "pset_behind_child_writer": False,  # ... and that block writes a child-only field
         }
         tmp = None
         try:
             if backend == "memory":
-                store = self.Mem(DictState())
+                store = self.Mem(C20Child() if typed else DictState())
             else:
                 tmp = tempfile.mkdtemp(prefix="c20-", dir=self.tmpbase)
                 ws = self.SqlWS(os.path.join(tmp, "wf.db"))
-                store = ws.create_state_store("run-1")
+                # as _ServerInternalRunAdapter.get_state_store: create_state_store(run_id, state_type)
+                store = ws.create_state_store("run-1", C20Child) if typed else ws.create_state_store("run-1")
 
             async def main():
                 if case["init"] is not None:
-                    await store.set_state(DictState(**copy.deepcopy(init)))
+                    await store.set_state(make_state(init))
                 gates: dict[int, asyncio.Event] = {}
                 flags = {"open_all": False}
                 open_blocks: set[int] = set()
+                open_ops: dict[int, dict] = {}
 
                 def gate(g):
                     ev = gates.get(g)
@@ -224,10 +304,11 @@ class C20(Prop):
                         if open_blocks - {ti}:
                             stats["two_blocks_open"] = True
                         open_blocks.add(ti)
+                        open_ops[ti] = op
                         try:
                             snap = None
                             if op.get("rd") != "late":
-                                snap = copy.deepcopy(dict(s.items()))
+                                snap = read_all(s)
                             for su in op.get("sus", []):
                                 if su[0] == "y":
                                     for _ in range(su[1]):
@@ -235,16 +316,17 @@ class C20(Prop):
                                 else:
                                     await gate(su[1]).wait()
                             if snap is None:
-                                snap = copy.deepcopy(dict(s.items()))
+                                snap = read_all(s)
                             for mi, m in enumerate(op.get("muts", [])):
                                 if m[0] == "incr":
-                                    s[m[1]] = snap.get(m[1], 0) + 1
+                                    put(s, m[1], snap.get(m[1], 0) + 1)
                                 elif m[0] == "append":
-                                    s["log"] = list(snap.get("log", [])) + [f"e{ti}.{oi}.{mi}"]
+                                    put(s, "log", list(snap.get("log", [])) + [f"e{ti}.{oi}.{mi}"])
                                 elif m[0] == "put":
-                                    s[m[1]] = uniq(ti, oi, mi + 1)
+                                    put(s, m[1], uniq(ti, oi, mi + 1))
                         finally:
                             open_blocks.discard(ti)
+                            open_ops.pop(ti, None)
 
                 async def run_task(ti, ops):
                     for oi, op in enumerate(ops):
@@ -256,7 +338,14 @@ class C20(Prop):
                             if op["k"] == "set":
                                 await store.set(op["path"], set_value(op["path"], ti, oi))
                             elif op["k"] == "set_state":
-                                await store.set_state(DictState(**whole_for(op.get("keys", []), ti, oi)))
+                                await store.set_state(make_state(whole_for(op.get("keys", []), ti, oi)))
+                            elif op["k"] == "set_state_parent":
+                                others = sorted(open_blocks - {ti})
+                                if others:
+                                    stats["pset_behind_block"] = True
+                                    if any(child_only_writer(open_ops[t]) for t in others):
+                                        stats["pset_behind_child_writer"] = True
+                                await store.set_state(C20Base(**parent_for(ti, oi)))
                             else:
                                 await block(ti, oi, op)
                         except asyncio.CancelledError:
@@ -283,7 +372,7 @@ class C20(Prop):
                 ts.append(asyncio.create_task(driver()))
                 await asyncio.gather(*ts)
                 final = await store.get_state()
-                return json.loads(json.dumps(dict(final.items())))
+                return json.loads(json.dumps(read_all(final)))
 
             final, quiescent = boot.run_virtual(main)
             if quiescent:
@@ -299,8 +388,9 @@ class C20(Prop):
     def run_case(self, case):
         r = CaseResult()
         tasks = case["tasks"]
+        typed = case.get("model", "dict") == "typed"
         init = {k: copy.deepcopy(INIT_VALUES[k]) for k in (case["init"] or [])}
-        expected = serial_results(init, tasks)
+        expected = serial_results(typed_full(init) if typed else init, tasks, typed)
         nontrivial = False
         for backend in BACKENDS:
             final, stats = self._run_backend(backend, case, init, r)
@@ -309,12 +399,17 @@ class C20(Prop):
                 r.classes.append(f"contention:{backend}")
             if stats["intruders"]:
                 r.classes.append(f"write_completed_inside_open_block:{backend}")
+            if stats["pset_behind_block"]:
+                r.classes.append(f"parent_set_state_behind_open_block:{backend}")
+            if stats["pset_behind_child_writer"]:
+                r.classes.append(f"parent_set_state_behind_child_field_writer:{backend}")
             if final is None or stats["raised"]:
                 continue
             if canon(final) not in expected:
                 r.v(
                     "final_state_not_serializable",
                     backend=backend,
+                    model="typed" if typed else "dict",
                     intruders=sorted(stats["intruders"]),
                     two_blocks_open=stats["two_blocks_open"],
                     observed=canon(final)[:300],
@@ -323,6 +418,7 @@ class C20(Prop):
                 )
         r.nontrivial = nontrivial
         r.classes.append(f"tasks_{len(tasks)}")
+        r.classes.append("model:typed" if typed else "model:dict")
         if len(expected) > 1:
             r.classes.append("order_revealing(>1 serial result)")
         kinds = {op["k"] for t in tasks for op in t}
